@@ -122,7 +122,7 @@ pub fn run_family(ctx: &'static Ctx, watch: &'static Watch, mode: Mode) {
             let (cls, viol) = eval(*class, *typ, &m, mode, &got);
             l.outcome(&cls, || case_json(*class, *typ, &m, &file));
             for (k, _) in viol {
-                l.violation(&k, case_json(*class, *typ, &m, &file));
+                crate::report(l, &k, || case_json(*class, *typ, &m, &file));
             }
         }
     });
